@@ -63,7 +63,10 @@ def rotation(sx, B):
 RES4 = [("R4", ["a", "b", "c", "d"])]
 MOLS = {"M1": [("R4", ["a", "b", "c", "d"])],
         "M2": [("R2", ["p", "q"]), ("R4", ["a", "b", "c", "d"]), ("R2", ["p", "q"])],
-        "M3": [("R2", ["p", "q"]), ("R3", ["u", "v", "w"])]}
+        "M3": [("R2", ["p", "q"]), ("R3", ["u", "v", "w"])],
+        # residue numbering that restarts inside the molecule (residues are told apart by number and name)
+        "M4": [("R2", ["p", "q"], 1), ("T2", ["p", "q"], 1)],
+        "M5": [("R2", ["p", "q"], 1), ("R3", ["u", "v", "w"], 2), ("T2", ["p", "q"], 1)]}
 
 
 class _Opt:
@@ -79,7 +82,7 @@ class _Opt:
            assumes=["the optimiser returns finite angles"],
            outside=["quality of the optimised orientation", "IEEE rounding", "templates of more than 4 atoms"],
            cfg={"timeout_ms": 30000, "path_timeout_s": 600},
-           bounds={"quick": dict(cases=["single x2", "chain"]), "thorough": dict(cases=["single x2", "chain", "pair"])},
+           bounds={"quick": dict(cases=["single x2", "chain", "numbering restarts"]), "thorough": dict(cases=["single x2", "chain", "pair", "numbering restarts"])},
            budget={"quick": 280, "thorough": 1500})
 def placement(sx, B):
     """Real Backmap.run_molecule (_place_init_coords + orient_template + rotate_xyz) on molecules read by the real reader, with a
@@ -90,11 +93,11 @@ def placement(sx, B):
     the same residue type is congruent to the first; templates are left unchanged."""
     case = sx.sel("case", B["cases"])
     fudge = sx.real("factor", 0, None, lo_strict=True)
-    layout = {"single x2": [("M1", 2)], "chain": [("M2", 1)], "pair": [("M3", 1)]}[case]
-    top = topology_from_text(top_text(MOLS, layout, atomtypes=("R4", "R2", "R3")))
+    layout = {"single x2": [("M1", 2)], "chain": [("M2", 1)], "pair": [("M3", 1)], "numbering restarts": [("M4", 1), ("M5", 1)]}[case]
+    top = topology_from_text(top_text(MOLS, layout, atomtypes=("R4", "R2", "R3", "T2")))
     # symbolic centred templates; key order deliberately differs from the atom order of the residue
     templates = {}
-    for resname, names in (("R4", ["c", "a", "d", "b"]), ("R2", ["q", "p"]), ("R3", ["w", "u", "v"])):
+    for resname, names in (("R4", ["c", "a", "d", "b"]), ("R2", ["q", "p"]), ("R3", ["w", "u", "v"]), ("T2", ["p", "q"])):
         vecs = {}
         acc = np.array([0, 0, 0], dtype=object)
         for nm in names[:-1]:
